@@ -98,6 +98,7 @@ fn main() {
                     "C12" => c12::eval(&l2),
                     "C10" => c10::eval(&l2),
                     "C07" => c07::eval(&l2),
+                    "C14" if l2.starts_with("KOT ") => c14::eval_kot(&l2), // C14v2
                     "C02" | "C14" | "C01" => kan::eval_free(&l2),
                     "KALL" | "C18" => kan::eval(&l2),
                     "C13" => c13::eval(&l2),
@@ -135,6 +136,7 @@ fn main() {
                 let l2 = line.clone();
                 let p = prop.to_string();
                 let res = std::panic::catch_unwind(move || match p.as_str() {
+                    "C14" if l2.starts_with("KOT ") => c14::expand_kot(&l2), // C14v2
                     "C08" => c08::expand(&l2),
                     "C10" => {
                         if l2.starts_with("KAN ") {
